@@ -15,7 +15,7 @@ import subprocess
 import sys
 import time
 
-REPO = '/repo'
+REPO = os.environ.get('SPOWTD_REPO', '/repo')
 HERE = os.path.dirname(os.path.dirname(os.path.abspath(__file__)))
 
 # (name, file, old, new, checks expected to catch)
